@@ -270,7 +270,7 @@ func check(id, tier string) int {
 			defer wg.Done()
 			logPath := filepath.Join(scratchRoot, fmt.Sprintf("w%02d.jsonl", i))
 			args := []string{"-prop", id, "-tier", tier, "-seed", strconv.FormatUint(seed, 10), "-worker", strconv.Itoa(i), "-nworkers", strconv.Itoa(nw),
-				"-budget", fmt.Sprint(budget), "-log", logPath, "-replaydir", replayDir, "-known", strings.Join(knownSigs, ","), "-minbudget", fmt.Sprint(minBudget)}
+				"-budget", fmt.Sprint(budget), "-log", logPath, "-replaydir", replayDir, "-known", strings.Join(knownSigs, ","), "-minbudget", fmt.Sprint(minBudget), "-regress", filepath.Join(verifDir(), "regress")}
 			env := []string{"GORACE=halt_on_error=0 log_path=" + filepath.Join(scratchRoot, fmt.Sprintf("race%02d", i)), "GOMAXPROCS=2"}
 			results[i] = runWorker(bin, i, args, logPath, env, time.Duration((budget+minBudget*3+120)*float64(time.Second)))
 		}(i)
